@@ -57,8 +57,8 @@ CHECKS = {
             "Client APDU timeout < server application timeout by construction; a forged reply with the right address and ID is (correctly) indistinguishable from the real one; reuse of an ID the server still processes is excused as a duplicate by design."),
     "C10": ("exploration",
             "exhaustive single-octet mutations / truncations / insertions of valid request frames + Hypothesis garbage, bodies and interleaved histories injected by an attacker node into a real device on the virtual LAN; frames classified by independent NPCI/APCI decoders",
-            "Valid requests of the supported services, a header-only request for every service choice 0..255, all their single-octet substitutions (sampled values; all 256 in thorough), truncations and insertions, Hypothesis-generated parameter bodies and NPDU garbage, requests arriving through two routers from remote sources, segmented-response dialogs with valid and corrupted segment-acks, and histories mixing garbage with valid frames in the same instant are injected into a real device; every frame the reference decoders classify as a well-framed confirmed request must receive exactly one reply of an admissible type with its invoke ID, routed back to its source; afterwards the device must hold no transaction or transaction timer and answer a final ReadProperty correctly.",
-            "Frames enter at the network layer (BVLL garbage is not injected here); frames with a DADR are not judged; COV lifetime timers created by mutated SubscribeCOV requests are not residue; the exception named in a signature is the first one the event loop swallowed in that history."),
+            "Valid requests of the supported services, a header-only request for every service choice 0..255, all their single-octet substitutions (sampled values; all 256 in thorough), truncations and insertions, Hypothesis-generated parameter bodies and NPDU garbage, requests arriving through two routers from remote sources, segmented-response dialogs with valid and corrupted segment-acks, histories mixing garbage with valid frames in the same instant, and - at the link layer - all 256 values at each BVLL/NPCI header octet, every truncation, insertions, every BVLL function code 0..255 with seven payloads, wrong length fields and Hypothesis histories of valid, mutated and random BVLL messages (unicast and broadcast) are injected into a real device; every frame the reference decoders classify as a well-framed confirmed request must receive exactly one reply of an admissible type with its invoke ID, routed back to its source; afterwards the device must hold no transaction or transaction timer and answer a final ReadProperty correctly.",
+            "In the network-layer runs frames enter at the NSAP of a device on the virtual LAN; in the link-layer runs raw datagrams enter below the AnnexJCodec of the same device on a virtual IP subnet (BIPSimple, BIPBBMD and BIPForeign variants), where only a request inside a correctly framed Original-Unicast-NPDU sent to the device is owed a reply; frames with a DADR are not judged; COV lifetime timers created by mutated SubscribeCOV requests are not residue; the exception named in a signature is the first one the event loop swallowed in that history."),
     "C17": ("exploration",
             "bounded exhaustive command sequences + Hypothesis long histories against a 16-slot priority model, applied directly and as WriteProperty/ReadProperty requests between real stacks; model-based min on/off timelines under virtual time",
             "All write/relinquish sequences up to length 3 on every commandable class and up to length 4 (5 thorough) on one class per datatype, with the datatype's zero/empty value among the three values, refused commands (priority 0, 17, 255, -1, slot 0) interleaved, plus Hypothesis histories of up to 100 commands over all 16 priorities, are applied through obj.WriteProperty and over the virtual LAN; after every step present value and all 16 slots, read directly and over the wire (whole array and by element), must equal a 16-slot model. Binary objects with minimum on/off times run generated timelines of commands and time advances against a model of the priority-6 hold.",
